@@ -333,6 +333,13 @@ func (c *compiler) compileType(y *Type, parent Leafable, isUnion bool) error {
 	if _, isList := parent.(*LeafList); isList && !y.format.IsList() {
 		y.format = y.format.List()
 	}
+	if lo, hi, numeric := numberBounds(y.format, y.fractionDigits); numeric {
+		resolveRangeKeywords(y.ranges, lo, hi)
+	}
+	if len(y.lengths) > 0 {
+		lo, hi, _ := numberBounds(val.FmtUInt64, 0)
+		resolveRangeKeywords(y.lengths, lo, hi)
+	}
 	if y.format == val.FmtUnion || y.format == val.FmtUnionList {
 		if len(y.unionTypes) == 0 {
 			return errors.New(SchemaPath(parent) + " - unions need at least one type")
